@@ -566,8 +566,8 @@ func genC01(cw *caseWriter, seed uint64, tier string) {
 		emitLine(cw, "C01", nil, late, []byte(`{"a":"`+long+`","z":1}`), true)
 		emitLine(cw, "C01", nil, late, []byte(`{"a":"`+long+`","z":"abc"}`), true)
 		emitEmit(cw, "C01", nil, func() interface{} { return map[string]interface{}{"k": long} }, true)
-		if sz > 8192 && tier != "thorough" {
-			continue
+		if sz > 8192 && tier != "thorough" || sz > 70000 {
+			continue // thousands of keys: the model's ordered-map operations are quadratic in the number of keys
 		}
 		var many []string
 		for i := 0; len(many)*12 < sz; i++ {
